@@ -87,3 +87,76 @@ contract(
         "default_dict[default_suffix(keys(bonding)[k])] == bonding[keys(bonding)[k]] for k in range(_i0))"])},
     examples=_ex_defaults_dict,
 )
+
+
+# ------------------------------------------------------------------------------------------------ sampler helpers
+def _ex_select():
+    import random
+    random.seed(1)
+    bonds_pool = [['$1'], ['$A1', '$B1'], ['>1', '<1', '$1'], ['$A1', '$A1', '>2']]
+    tables = [None, {}, {'$A1': 0.5, '$B1': 0.5}, {'$A1': 0.0, '$B1': 1.0}, {'>1': 0.2, '$1': 0, '<1': 0.8}, {'$A1': 0, '>2': 0}, {'$Z1': 1.0}]
+    for b in bonds_pool:
+        for t in tables:
+            for _ in range(4):
+                yield {'bonds': list(b), 'probabilities': t}
+
+
+contract(
+    target='cgsmiles.sample:_select_bonding_operator', serves=['C17'],
+    types={'bonds': 'List[Str]', 'probabilities': 'Opt[Dict[Str,Real]]'}, returns='Str',
+    # reactivities are probabilities: never negative
+    requires=["implies(probabilities is not None, all(probabilities[k] >= 0 for k in keys(probabilities)))"],
+    ensures=[
+        "member(result, bonds)",
+        # with a non-empty table, a descriptor with reactivity 0 (or without an entry) is never chosen
+        "implies(probabilities is not None and len(probabilities) > 0, result in probabilities and probabilities[result] > 0)",
+    ],
+    raises={'ValueError': {'when': None}, 'IndexError': {'when': None}},
+    examples=_ex_select,
+)
+
+
+def _ex_open_bonds():
+    import random
+    import networkx as nx
+    rng = random.Random(9)
+    pool = [[], ['$1'], ['$1', '$1'], ['>1', '$A1'], ['<2']]
+    for _ in range(200):
+        g = nx.Graph()
+        for i in range(rng.randint(0, 5)):
+            if rng.random() < 0.8:
+                g.add_node(i * 2, bonding=list(rng.choice(pool)))
+            else:
+                g.add_node(i * 2)
+        yield {'molecule': g, 'target_nodes': None}
+
+
+_OB_SOUND = ("all(has_attr(molecule, n, 'bonding') and member(b, attr(molecule, n, 'bonding')) "
+             "for b in keys({d}) for n in {d}[b])")
+_OB_COMPLETE = ("all(all(d in {d} and member(n, {d}[d]) for d in attr(molecule, n, 'bonding')) "
+                "for n in nodes(molecule) if has_attr(molecule, n, 'bonding'){extra})")
+
+contract(
+    target='cgsmiles.cgsmiles_utils:find_open_bonds', serves=['C16', 'C17'],
+    types={'molecule': 'Graph:mol', 'target_nodes': 'Opt[Int]'}, fix={'target_nodes': None},
+    returns='DefaultDict[Str,List[Int]]',
+    locals={'open_bonds_by_descriptor': 'DefaultDict[Str,List[Int]]'},
+    ensures=[
+        # every node listed under a descriptor carries that descriptor ...
+        _OB_SOUND.format(d='result'),
+        # ... and every descriptor on a node's 'bonding' list has the node listed under it
+        _OB_COMPLETE.format(d='result', extra=''),
+    ],
+    modifies=[],
+    loops={
+        0: Loop(over='open_bonds.items()', invariant=[
+            _OB_SOUND.format(d='open_bonds_by_descriptor'),
+            _OB_COMPLETE.format(d='open_bonds_by_descriptor', extra=' and key_index(open_bonds, n) < _i0')]),
+        1: Loop(over='bonding_types', invariant=[
+            _OB_SOUND.format(d='open_bonds_by_descriptor'),
+            _OB_COMPLETE.format(d='open_bonds_by_descriptor', extra=' and key_index(open_bonds, n) < _i0'),
+            "all(attr(molecule, node, 'bonding')[j] in open_bonds_by_descriptor and "
+            "member(node, open_bonds_by_descriptor[attr(molecule, node, 'bonding')[j]]) for j in range(_i1))"]),
+    },
+    examples=_ex_open_bonds,
+)
